@@ -282,6 +282,23 @@ def run(ctx):
                  construct="SymlinkNode.__init__: first statement")
     upd = [s for s, t in zip(body, texts) if kw and t in ("self.target.__dict__.update(%s)" % kw, "target.__dict__.update(%s)" % kw)]
     alt = [s for s in body if isinstance(s, ast.For) and kw and "setattr(self.target" in norm(s)]
+    if not (upd or alt) and kw:
+        # anywhere in the body, possibly behind `if kwargs:` and with a fall-back for targets without an instance dict:
+        # try: d = target.__dict__ / except AttributeError: for k, v in kwargs.items(): setattr(target, k, v) / else: d.update(kwargs)
+        tnames = ("self.target", "target")
+        for t_ in [x for x in ast.walk(init.node) if isinstance(x, ast.Try)]:
+            # (the alias normalisation may have moved the `__dict__` read from the try body to its else branch)
+            reads = [a for st_ in t_.body + t_.orelse for a in ast.walk(st_) if isinstance(a, ast.Attribute) and a.attr == "__dict__" and norm(a.value) in tnames]
+            hs = [h for h in t_.handlers if h.type is not None and norm(h.type) == "AttributeError"]
+            slow = [lp for h in hs for lp in ast.walk(h) if isinstance(lp, ast.For) and norm(lp.iter) == "%s.items()" % kw
+                    and isinstance(lp.target, ast.Tuple) and len(lp.target.elts) == 2 and len(lp.body) == 1
+                    and " ".join(norm(lp.body[0]).split()) in tuple("setattr(%s, %s, %s)" % (tn, norm(lp.target.elts[0]), norm(lp.target.elts[1])) for tn in tnames)]
+            fast = [c for st_ in (t_.orelse + t_.body) for c in ast.walk(st_) if isinstance(c, ast.Call) and isinstance(c.func, ast.Attribute)
+                    and c.func.attr == "update" and [norm(a) for a in c.args] == [kw] and not c.keywords]
+            outer_ok = all(isinstance(c_, ast.Name) and c_.id == kw for c_, o_, _g in typer_for(ctx).cfg_of(init).guards_of(
+                next(cn_ for cn_ in typer_for(ctx).cfg_of(init).nodes if cn_.ast is not None and any(cn_.ast is b_ for b_ in t_.body + t_.orelse))))
+            if reads and len(hs) == len(t_.handlers) == 1 and slow and fast and outer_ok:
+                upd = [t_]
     if upd or alt:
         ctx.inst("L4", init, (upd + alt)[0], "keyword attributes stored on the target")
     else:
